@@ -314,3 +314,47 @@ def _mk_realize(n):
 
 for _n in (1, 2, 3):
     _mk_realize(_n)
+
+
+# ---------------------------------------------------------------------------------------------------------------- C11 / C16: one adapter serves every partition
+# FileEntriesAdapter is a module-level object shared by every volume of every partition of every image opened in the process.  Its `sat`
+# is an EXPRESSION (resolved against the context of the volume being parsed: that volume's partition table and partition stream), and a
+# parse must leave the adapter as it found it - otherwise the first directory realised would decide which table and which stream every
+# later listed directory reads through.  The frame of _parse: the table stream's cursor and nothing of `self`.
+@contract("construct:sat_expression#abstract", abstract=True, assumed=True, note="the `this._.sat` path expression evaluated on the parse context (pure)")
+def _satx(c):
+    c.param("context", ("drop",))
+    c.returns(("obj", "SatOfThisContext", {}))
+    c.modifies()
+
+
+@contract(FE + "FileEntriesAdapter._parse#shared-adapter", source_key=FE + "FileEntriesAdapter._parse", props=["C11", "C16"], proof_only=True)
+def _parse_shared(c):
+    c.self_obj(("self", "smpl_extract.akai.file_entry:FileEntriesAdapter", {"sat": ("obj", "SatExpression", {}), "subcon": ("drop",)}))
+    c.param("stream", ROF)
+    c.param("context", ("drop",))
+    c.param("path", ("const", None))
+    c.abstract_calls = {
+        "pull_child_info": "smpl_extract.util.constructs:pull_child_info#abstract",
+        "self.subcon.sizeof": "construct:FileEntryConstruct.sizeof",
+        "Int16ul.parse_stream": "construct:Int16ul.parse_stream",
+        "self.subcon.parse_stream": "construct:FileEntryConstruct.parse_stream",
+        "Lazy(FileAdapter(this._.sat, FileConstruct)).parse_stream": "construct:Lazy(FileAdapter).parse_stream",
+        "self.sat": "construct:sat_expression#abstract",
+        "callable": "builtins:callable#true",
+    }
+    # (no precondition on the table stream's cursor: the scan rewinds it itself)
+    c.raises("ConstructError")
+    c.ensures("self.sat is old(self.sat)", "the-shared-adapter-keeps-its-table-expression")
+    lp = c.loop(0)
+    lp.invariant("table_entry_size == 24", "stream.cur == 24 * _i0",
+                 "max_table_entry_cnt == file_table_size // 24 and file_table_size == len(stream.content)")
+    lp.modifies("stream.cur").modifies("file_entries", ("list", "opaque"))
+    c.modifies("stream.cur")
+
+
+@contract("builtins:callable#true", abstract=True, note="callable(x) for the expression object: True")
+def _callable_true(c):
+    c.param("x", ("drop",))
+    c.returns(("const", True))
+    c.modifies()
